@@ -198,4 +198,81 @@ theorem fitScaling_axes (pts : List Pt) (d : Nat) (hrect : ∀ p ∈ pts, p.leng
     have : (colMax pts)[i]'(by omega) - (colMin pts)[i]'(by omega) = 0 := by linarith
     simp [this]
 
+/-! ### a data set scaled beforehand that `_internal_scaling` accepts -/
+
+theorem zipWith_all_eq (l1 l2 : List Rat) (hlen : l1.length = l2.length)
+    (h : (List.zipWith (fun (x y : Rat) => decide (x = y)) l1 l2).all id = true) : l1 = l2 := by
+  induction l1 generalizing l2 with
+  | nil => cases l2 with
+    | nil => rfl
+    | cons b l2 => simp at hlen
+  | cons a l1 ih =>
+    cases l2 with
+    | nil => simp at hlen
+    | cons b l2 =>
+      simp only [List.zipWith_cons_cons, List.all_cons, id_eq, Bool.and_eq_true, decide_eq_true_eq] at h
+      rw [h.1, ih l2 (by simpa using hlen) h.2]
+
+theorem map_lo_preAxis (a b : Rat) (l1 l2 : List Rat) (hlen : l1.length = l2.length) :
+    (List.zipWith (preAxis a b) l1 l2).map (·.lo) = l1 := by
+  induction l1 generalizing l2 with
+  | nil => simp
+  | cons x l1 ih =>
+    cases l2 with
+    | nil => simp at hlen
+    | cons y l2 => simp [preAxis, ih l2 (by simpa using hlen)]
+
+/-- the owner's `scale_range` map and the learning map coincide once factors and origins coincide -/
+theorem prePt_eq_scalePt (sc axes : List Axis) (x : Pt) (hf : sc.map (·.f) = axes.map (·.f))
+    (hl : sc.map (·.lo) = axes.map (·.lo)) :
+    List.zipWith (fun (ax : Axis) v => v * ax.f + (loTarget - ax.lo * ax.f)) axes x = scalePt sc x := by
+  unfold scalePt
+  induction sc generalizing axes x with
+  | nil => cases axes with
+    | nil => simp
+    | cons b axes => simp at hf
+  | cons a sc ih =>
+    cases axes with
+    | nil => simp at hf
+    | cons b axes =>
+      cases x with
+      | nil => simp
+      | cons v x =>
+        simp only [List.map_cons, List.cons.injEq] at hf hl
+        simp only [List.zipWith_cons_cons, List.cons.injEq]
+        refine ⟨?_, ih axes x hf.2 hl.2⟩
+        unfold scaleCoord
+        rw [hf.1, hl.1]; ring
+
+/-- **a pre-scaled data set is accepted only if its scaling IS the learning scaling**: whenever `_internal_scaling`
+accepts a (rectangular, non-empty) data set its owner scaled with `scale_range((a, b))`, the coordinates it uses are
+exactly the images of the raw samples under the map stored at learning time -/
+theorem prescaled_accepted (st : State) (d : Data) (a b : Rat) (pts : Data) (hne : d ≠ [])
+    (hrect : ∀ s ∈ d, s.pt.length = st.sc.length)
+    (h : internalPts st ⟨d, some (a, b)⟩ = .ok pts) :
+    pts = d.map (fun s => { s with pt := scalePt st.sc s.pt }) := by
+  unfold internalPts at h
+  simp only at h
+  split at h
+  next hs =>
+    simp only [Except.ok.injEq] at h
+    subst h
+    unfold sameScaling at hs
+    simp only [Bool.and_eq_true, decide_eq_true_eq] at hs
+    obtain ⟨⟨⟨⟨_, ha⟩, _⟩, hfac⟩, horig⟩ := hs
+    subst ha
+    have hcm := colMin_colMax (d.map (·.pt)) st.sc.length
+      (by intro p hp; obtain ⟨s, hs, rfl⟩ := List.mem_map.mp hp; exact hrect s hs)
+      (by simpa using hne)
+    obtain ⟨hlmin, hlmax, _⟩ := hcm
+    have hlo := map_lo_preAxis loTarget b (colMin (d.map (·.pt))) (colMax (d.map (·.pt))) (hlmin.trans hlmax.symm)
+    have hf : st.sc.map (·.f) = (List.zipWith (preAxis loTarget b) (colMin (d.map (·.pt))) (colMax (d.map (·.pt)))).map (·.f) := by
+      apply zipWith_all_eq _ _ _ hfac
+      simp [preFactor, hlmin, hlmax]
+    unfold preScale
+    apply List.map_congr_left
+    intro s _
+    rw [prePt_eq_scalePt st.sc _ s.pt hf (by rw [hlo]; exact horig)]
+  next => exact absurd h (by simp)
+
 end SparseSpace.Classify
